@@ -30,6 +30,51 @@ theorem step_pushInt (fuel : Nat) (g : G) (f : Frame) (i : Int) (hpc : f.pc < f.
   simp [exec, Frame.push, this]
 
 
+/-- the other constant pushes -/
+theorem step_pushFlt (fuel : Nat) (g : G) (f : Frame) (x : Float) (hpc : f.pc < f.code.size) (hi : f.code[f.pc]! = .pushFlt x)
+    (hl : g.cfg.opLimit = 0) (ht : f.top < stackSize) (hs : f.stack.size = stackSize) :
+    evalLoop (fuel + 1) g f =
+      evalLoop fuel (addOps g f.ctx 1) { f with pc := f.pc + 1, stack := f.stack.set! f.top (.float x), top := f.top + 1 } := by
+  rw [evalLoop_dispatch fuel g f hpc hl ht, hi]
+  have : f.top < f.stack.size := by omega
+  simp [exec, Frame.push, this]
+
+theorem step_pushStr (fuel : Nat) (g : G) (f : Frame) (x : String) (hpc : f.pc < f.code.size) (hi : f.code[f.pc]! = .pushStr x)
+    (hl : g.cfg.opLimit = 0) (ht : f.top < stackSize) (hs : f.stack.size = stackSize) :
+    evalLoop (fuel + 1) g f =
+      evalLoop fuel (addOps g f.ctx 1) { f with pc := f.pc + 1, stack := f.stack.set! f.top (.str x), top := f.top + 1 } := by
+  rw [evalLoop_dispatch fuel g f hpc hl ht, hi]
+  have : f.top < f.stack.size := by omega
+  simp [exec, Frame.push, this]
+
+theorem step_pushNull (fuel : Nat) (g : G) (f : Frame) (hpc : f.pc < f.code.size) (hi : f.code[f.pc]! = .pushNull)
+    (hl : g.cfg.opLimit = 0) (ht : f.top < stackSize) (hs : f.stack.size = stackSize) :
+    evalLoop (fuel + 1) g f =
+      evalLoop fuel (addOps g f.ctx 1) { f with pc := f.pc + 1, stack := f.stack.set! f.top .null, top := f.top + 1 } := by
+  rw [evalLoop_dispatch fuel g f hpc hl ht, hi]
+  have : f.top < f.stack.size := by omega
+  simp [exec, Frame.push, this]
+
+theorem step_pos_ok (fuel : Nat) (g : G) (f : Frame) (r : Val)
+    (hpc : f.pc < f.code.size) (hi : f.code[f.pc]! = .pos) (hl : g.cfg.opLimit = 0) (ht : f.top < stackSize)
+    (hs : f.stack.size = stackSize) (h1 : 1 ≤ f.top) (hn : opPos (f.stack[f.top - 1]!) = some r) :
+    evalLoop (fuel + 1) g f =
+      evalLoop fuel (addOps g f.ctx 1)
+        { f with pc := f.pc + 1, stack := f.stack.set! (f.top - 1) r, top := f.top, lastPop := .slot (f.top - 1) } := by
+  rw [evalLoop_dispatch fuel g f hpc hl ht, hi]
+  have e0 : (f.top == 0) = false := by simp; omega
+  have e3 : f.top - 1 < f.stack.size := by omega
+  have e4 : f.top - 1 + 1 = f.top := by omega
+  simp only [exec, Frame.pop, e0, Bool.false_eq_true, if_false, hn, Frame.push, e3, if_true, e4]
+
+theorem step_pos_err (fuel : Nat) (g : G) (f : Frame)
+    (hpc : f.pc < f.code.size) (hi : f.code[f.pc]! = .pos) (hl : g.cfg.opLimit = 0) (ht : f.top < stackSize)
+    (h1 : 1 ≤ f.top) (hn : opPos (f.stack[f.top - 1]!) = none) :
+    evalLoop (fuel + 1) g f = (addOps g f.ctx 1, .err ("此类型无法使用一元算符 " ++ "pos" ++ ": " ++ typeName (f.stack[f.top - 1]!))) := by
+  rw [evalLoop_dispatch fuel g f hpc hl ht, hi]
+  have e0 : (f.top == 0) = false := by simp; omega
+  simp only [exec, Frame.pop, e0, Bool.false_eq_true, if_false, hn, if_true, Res.cast]
+
 theorem step_bin_ok (fuel : Nat) (g : G) (f : Frame) (op : BinOp) (h' : Heap) (v : Val)
     (hpc : f.pc < f.code.size) (hi : f.code[f.pc]! = .bin op) (hl : g.cfg.opLimit = 0) (ht : f.top < stackSize)
     (hs : f.stack.size = stackSize) (h2 : 2 ≤ f.top)
